@@ -3,7 +3,9 @@ import Nstd.Seq.Lemmas
   One step of the machine refines one step of the reference sequences and keeps the storage
   invariant of the arrays.
 -/
+set_option linter.unusedSectionVars false
 namespace Nstd.Seq
+variable [ArrCfg]
 
 /-- invariant of the machine: both arrays satisfy `size ≤ capacity` (when they have storage) -/
 def Inv (s : State) : Prop := s.a0.Ok ∧ s.a1.Ok
@@ -135,7 +137,7 @@ theorem step_refines (s : State) (op : Op) (h : Inv s) :
     unfold step Spec.step StepOk obsS
     by_cases hv : v < 2
     · simp [hv, absS_setL, absS_getL, inv_setL, h, Spec.liftL, Spec.const, LState.vals_appendAll,
-        show ({} : LState).vals = [] from rfl]
+        show ({ bk := (s.getL v).bk } : LState).vals = [] from rfl]
     · simp [hv]
   | lassign v =>
     unfold step Spec.step StepOk obsS
